@@ -1,0 +1,49 @@
+//! Verification hooks for the worker (cargo feature `verif`, off by default): read-only views of
+//! private state via a child module, and canonical orders for the hash-set iterations whose order
+//! the production build leaves to `RandomState`.
+
+use super::*;
+
+#[derive(Debug, Clone, PartialEq, Eq)]
+pub struct WorkerView {
+    pub awaited: Vec<ProcessId>,
+    pub awaiters_for_target: Vec<(ProcessId, Vec<ProcessId>)>,
+    pub pending_result_requests: Vec<(ProcessId, Vec<(u64, Option<Vec<usize>>)>)>,
+}
+
+pub fn sorted(mut pids: Vec<ProcessId>) -> Vec<ProcessId> {
+    pids.sort_unstable();
+    pids
+}
+
+impl<E: Effect, R: CommandReceiver<E>, S: EventSender<E>> Worker<E, R, S> {
+    pub fn verif_executor(&self) -> &Executor<E> {
+        &self.executor
+    }
+
+    pub fn verif_executor_mut(&mut self) -> &mut Executor<E> {
+        &mut self.executor
+    }
+
+    pub fn verif_view(&self) -> WorkerView {
+        let mut awaited: Vec<ProcessId> = self.awaited.iter().copied().collect();
+        awaited.sort_unstable();
+        let mut awaiters_for_target: Vec<(ProcessId, Vec<ProcessId>)> = self
+            .awaiters_for_target
+            .iter()
+            .map(|(k, v)| (*k, v.clone()))
+            .collect();
+        awaiters_for_target.sort();
+        let mut pending_result_requests: Vec<_> = self
+            .pending_result_requests
+            .iter()
+            .map(|(k, v)| (*k, v.clone()))
+            .collect();
+        pending_result_requests.sort();
+        WorkerView {
+            awaited,
+            awaiters_for_target,
+            pending_result_requests,
+        }
+    }
+}
